@@ -390,6 +390,14 @@ def run_script(lines, **kw):
                 else:
                     raise ValueError(line)
             run.sched.setdefault((int(p[1]), int(p[2])), []).extend(acts)
+        elif p[0] in ('train', 'valid'):
+            # an epoch run by hand (the public building blocks of fit())
+            run.world.events = []
+            with warnings.catch_warnings():
+                warnings.simplefilter('ignore')
+                (run.solver.run_train_epoch if p[0] == 'train' else run.solver.run_valid_epoch)()
+            out.append(f'M {p[0]} ' + run.dump())
+            out.append('LOG ' + ' '.join(run.world.events))
         elif p[0] == 'fit':
             run.fit(int(p[1]))
             out += run.out
